@@ -166,6 +166,8 @@ def judge_groups(ctx, groups, clause_filter, site_of=None, tags_of=None, trace_m
             v = byid[c['id']]
             if v['path'] == 'exc:Reset' and kind != 'range':
                 continue                      # Reset leaves most state UNKNOWN: only the range canary applies
+            if kind == 'priv' and c['act']['n'] not in ('Step', 'Exec') and not v['path'].startswith(('memapi', 'exc', 'psrapi')):
+                continue                      # no clause of this verdict path looks at privileged state
             if kind == 'priv':
                 ctx.canary('confine' in v['v'] or 'range' in v['v'] or 'hosterror' in v['v'] or
                            (v['path'].startswith(('memapi', 'exc', 'psrapi', 'exact')) and bool(v['v'])))
